@@ -71,8 +71,27 @@ def _wrap_out_result(res, units):
     return cls(res, units, bypass_validation=True)
 
 
+def _product_units(a, b):
+    # a bare operand contributes no unit - in particular not the default
+    # registry of NULL_UNIT - so the result stays in the registry of the
+    # operand that does carry units
+    ua = getattr(a, "units", None)
+    ub = getattr(b, "units", None)
+    if ua is None:
+        return NULL_UNIT if ub is None else ub
+    if ub is None:
+        return ua
+    if ua.registry is not ub.registry and not all(
+        str(s) in ua.registry for s in ub.expr.free_symbols
+    ):
+        # like the multiply ufunc: keep the product in a registry that knows
+        # the symbols of both factors
+        return ub * ua
+    return ua * ub
+
+
 def product_helper(a, b, out, func):
-    prod_units = getattr(a, "units", NULL_UNIT) * getattr(b, "units", NULL_UNIT)
+    prod_units = _product_units(a, b)
     if out is None:
         return func._implementation(np.asarray(a), np.asarray(b)) * prod_units
     res = func._implementation(np.asarray(a), np.asarray(b), out=np.asarray(out))
@@ -89,14 +108,14 @@ def dot(a, b, out=None):
 @implements(np.vdot)
 def vdot(a, b):
     return np.vdot._implementation(np.asarray(a), np.asarray(b)) * (
-        getattr(a, "units", NULL_UNIT) * getattr(b, "units", NULL_UNIT)
+        _product_units(a, b)
     )
 
 
 @implements(np.inner)
 def inner(a, b):
     return np.inner._implementation(np.asarray(a), np.asarray(b)) * (
-        getattr(a, "units", NULL_UNIT) * getattr(b, "units", NULL_UNIT)
+        _product_units(a, b)
     )
 
 
@@ -108,7 +127,7 @@ def outer(a, b, out=None):
 @implements(np.kron)
 def kron(a, b):
     return np.kron._implementation(np.asarray(a), np.asarray(b)) * (
-        getattr(a, "units", NULL_UNIT) * getattr(b, "units", NULL_UNIT)
+        _product_units(a, b)
     )
 
 
@@ -422,7 +441,7 @@ def concatenate(arrs, /, axis=0, out=None, *args, **kwargs):
 
 @implements(np.cross)
 def cross(a, b, *args, **kwargs):
-    prod_units = getattr(a, "units", NULL_UNIT) * getattr(b, "units", NULL_UNIT)
+    prod_units = _product_units(a, b)
     return (
         np.cross._implementation(np.asarray(a), np.asarray(b), *args, **kwargs)
         * prod_units
